@@ -34,6 +34,7 @@ from more_itertools import pairwise
 import gtirb_rewriting._auxdata as _auxdata
 import gtirb_rewriting._auxdata_offsetmap as _auxdata_offsetmap
 
+from .. import _verif
 from .._auxdata_offsetmap import OFFSETMAP_AUX_DATA_TABLES
 from ..assembler import Assembler, UnsupportedAssemblyError
 from ..utils import (
@@ -560,3 +561,8 @@ def edit_byte_interval(
                 for k, v in displacement_map.items()
                 if k < offset or k >= offset + length
             }
+
+
+if _verif.ENABLED:
+    insert = _verif.traced("insert", insert)
+    delete = _verif.traced("delete", delete)
